@@ -77,7 +77,7 @@ MANIFEST_TEXT = {
     "C14": {"level": "Seeded search over schedules of 8 graph topologies built from the standard nodes (function-node chains with queueing / rejecting / lightweight policies and concurrency serial / 2 / unlimited, broadcast + queueing join, buffering sender in front of a rejecting serial node, input_node + limiter with decrement feedback, multifunction routing, continue_node fan-in, async_node completed by a foreign thread, one buffering node feeding a reserving limiter and a rejecting node at once) with 1-3 external putting threads, optional concurrent graph::cancel; "
                      "oracle: per node and message exactly-once processing, concurrent bodies <= limit, sink multiset == accepted multiset, rejected external puts leave nothing in the graph, wait_for_all returns only when no body runs / no reserve_wait is outstanding and nothing starts afterwards.",
             "note": "<= 12 messages and <= 6 nodes per run; UBSan's null check is off in the flow-graph translation units (benign idiom in the tagged buffer, see build.mk)."},
-    "C15": {"level": "Seeded search over schedules of one node under test between 1-3 putting threads and a serial recording sink or pulling consumer: queue_node (per-producer FIFO), sequencer_node (any arrival permutation -> 0,1,2,...; numbers below the head rejected), priority_queue_node, join_node queueing / key_matching / reserving (unpaired inputs stay upstream), limiter_node with in-graph decrement feedback and several messages in flight, overwrite_node / write_once_node incl. successors added later, split_node / indexer_node routing, try_reserve / try_release / try_consume conservation.",
+    "C15": {"level": "Seeded search over schedules of one node under test between 1-3 putting threads and a serial recording sink or pulling consumer: queue_node (per-producer FIFO), sequencer_node (any arrival permutation -> 0,1,2,...; numbers below the head rejected), priority_queue_node, join_node queueing / key_matching / reserving (unpaired inputs stay upstream), limiter_node with in-graph decrement feedback and several messages in flight, limiter_node<int,int> with batch decrements racing puts, overwrite_node / write_once_node incl. successors added later, split_node / indexer_node routing, try_reserve / try_release / try_consume conservation.",
             "note": "<= 12 messages per run; the limiter oracle counts forwarded-but-not-yet-decremented messages inside the stage behind the limiter."},
     "C02": {"level": "Seeded search over schedules, spurious futex wake-ups, wake-order choices, thread-start failures, clock jumps and x86-TSO store-buffer delays of (a) sleeper/notifier programs on the real concurrent_monitor (prepare/re-check/commit vs state-change/notify_all/notify(predicate)) and (b) whole-runtime programs in which enqueued work must run although its submitter never calls a TBB wait: arenas of every small shape, several arenas competing for workers, max_allowed_parallelism=1 (mandatory worker), execute() on saturated arenas (exit monitor), bursts separated by idle phases, arenas of different priorities under a 0-2 worker limit with a busy arena that keeps plain demand alive without waiting; "
                      "verdict = the simulator's deadlock / permanent-livelock criterion under a fair scheduler (no timing assumption) plus predicate-true-on-return checks and, through hook H7, 'an arena with enqueued work and demand is not left without the mandatory worker'. Sensitivity shown by removing the seq_cst fence of notify_all/notify: 12 deadlocks in 176k runs.",
@@ -94,7 +94,7 @@ MANIFEST_TEXT = {
     "C04": {"level": "Seeded search over schedules (incl. x86-TSO delays on the context objects) of context forests of 2-12 heap-allocated task_group_contexts (bound / isolated) that are bound lazily by nested parallel_for calls exactly as in production, with 1-3 cancel_group_execution calls issued from bodies inside the forest and from external threads, racing with binders, plus a focused scenario (chains of 3-4 bound contexts, store buffers always on, one cancel released just before the target's first child is bound) and a life-cycle scenario (2-3 rounds over the same heap contexts: cancelled contexts reset or carried on, stack-allocated contexts created / bound / destroyed by the bodies while cancellations propagate); "
                      "oracle at quiescence (binder threads still alive): at most one true per context (exactly one if no ancestor was cancelled), every bound context beneath a cancelled one is cancelled, nothing else is, the state persists until reset, task_group resets its own context.",
             "note": "contexts that outlive the thread they were bound on (orphaned context lists) are outside the scenario; the oracle runs while the binder threads are alive."},
-    "C03": {"level": "Seeded search over schedules and throw plans: the k-th..k+m-th invocation of {body, Range copy constructor, Range splitting constructor, reduction-body splitting constructor, join} throws a tagged exception inside parallel_for (4 partitioners), parallel_reduce, parallel_for_each, parallel_invoke, parallel_pipeline, task_group (wait / run_and_wait), task_arena::execute and a flow-graph function_node, optionally with a concurrent external cancel; "
+    "C03": {"level": "Seeded search over schedules and throw plans: the k-th..k+m-th invocation of {body, Range copy constructor, Range splitting constructor, reduction-body splitting constructor, join} throws a tagged exception inside parallel_for (4 partitioners), parallel_reduce, parallel_for_each, parallel_invoke, parallel_pipeline (int and class-type tokens, filter modes from the plan), task_group (wait / run_and_wait), task_arena::execute and a flow-graph function_node, optionally with a concurrent external cancel; "
                      "oracle: exactly one exception, with a tag really thrown by that group, reaches the caller; no body running or starting after the call exits; nothing escapes on a worker fiber; a second fault-free round on the same objects completes; construction/destruction balance of Range, Body and functor objects.",
             "note": "throw sites are harness-side (user code); allocation failures inside the scheduler itself are not injected."},
     "C17": {"level": "Seeded search over schedules of 1-4 simulated threads issuing scalable_malloc/calloc/realloc/aligned_malloc/aligned_realloc/posix_memalign/free/msize and cleanup commands against the real tbbmalloc (sizes biased to every class boundary, alignments up to 2^20, foreign frees, threads exiting with live blocks whose slabs are orphaned and adopted by a later thread); "
@@ -106,19 +106,19 @@ MANIFEST_TEXT = {
     "C10": {"level": "Seeded search over schedules of 2-4 simulated threads doing insert/emplace/find/count/erase (by key and by accessor, holding accessors across schedule points) on the real concurrent_hash_map with identity / constant / low-bit-colliding hashers, 1-2 initial buckets and sequential prefills that park the table at each growth threshold, and an erase-dominated theme on one bucket chain with all keys present at the start; "
                      "oracle: per-key Wing-Gong-Lowe linearizability against a sequential map (values carry unique tags), reader/writer holder bookkeeping inside the mapped value, destructor check (no element destroyed under an accessor), size()/traversal/find agreement at quiescence.",
             "note": "<= 22 concurrent operations on <= 6 keys per run; P-compositional per-key checking; SC at atomic-operation granularity."},
-    "C11": {"level": "Seeded search over schedules of 2-4 simulated threads doing push_back/emplace_back/grow_by/grow_to_at_least across the first-block decision, segment boundaries and the embedded-to-long table switch; oracle: returned ranges disjoint/contiguous/tiling, each address constructed exactly once (constructor registry), requested values, address stability of sampled elements, grow_to_at_least waits for construction; "
+    "C11": {"level": "Seeded search over schedules of 2-4 simulated threads doing push_back/emplace_back/grow_by/grow_to_at_least across the first-block decision, segment boundaries and the embedded-to-long table switch; oracle: returned ranges disjoint/contiguous/tiling, each address constructed exactly once (constructor registry), requested values, address stability of sampled elements, grow_to_at_least waits for construction, an observer thread checks that every index below size() is backed by a segment while the vector grows; "
                      "separate fault modes (throwing constructor / failing allocator at the k-th call) check only what the statement promises after a failure (destructible, accesses work or throw, ASan-clean).",
             "note": "sizes >= 2^31 are not run inside the simulator (a native reproducer of the fixed grow_to_at_least defect exists); index-to-segment bijection is a pure function, exercised only."},
-    "C12": {"level": "Seeded search over schedules of 2-4 simulated threads doing insert/emplace/find/count/contains and complete traversals on all 8 container types (unordered: identity / constant / adversarial hashers, 1-2 initial buckets, prefills forcing table doublings; ordered: skip-list levels vary with the simulated time() seed); "
+    "C12": {"level": "Seeded search over schedules of 2-4 simulated threads doing insert/emplace/find/count/contains and complete traversals on all 8 container types (unordered: identity / constant / adversarial hashers, 1-2 initial buckets, prefills forcing table doublings; ordered: skip-list levels vary with the simulated time() seed; container filled directly or swapped in from another container); "
                      "oracle: one winner per key in unique containers and losers point at the winner, contents == successful inserts, find after a returned insert succeeds, traversals without duplicates that contain every element inserted before they began, comparator order / contiguity of equivalent elements, bounds queries at quiescence.",
             "note": "<= 24 operations on <= 10 keys per run."},
     "C13": {"level": "Seeded search over schedules of 2-4 simulated threads doing push/emplace/try_pop (4-value priority domain, unique ids) on the real concurrent_priority_queue; oracle: Wing-Gong-Lowe linearizability against a priority multiset, conservation after a final drain, and (separate mode) a throwing element copy at the k-th copy must reach only its own caller and have no effect.",
             "note": "<= 20 concurrent operations per run; aggregator batches are whatever the schedule produces."},
-    "C05": {"level": "Seeded search over steal patterns (the simulated scheduler decides which subtasks are stolen) of parallel_for over instrumented blocked_range (all four partitioners, affinity replay, sizes 0..4096 with per-element counters, huge ranges > 2^24 / > 2^32 / near 2^64 with chunk-level accounting), 2d/3d/nd ranges, integer overloads, parallel_for_each (forward / random-access iterators, feeder) and parallel_invoke; "
+    "C05": {"level": "Seeded search over steal patterns (the simulated scheduler decides which subtasks are stolen) of parallel_for over instrumented blocked_range (all four partitioners, affinity replay, sizes 0..4096 with per-element counters, huge ranges > 2^24 / > 2^32 / near 2^64 with chunk-level accounting), 2d/3d/nd ranges (small with per-cell counters, and extents / grain sizes of 2^20..2^41 per dimension with chunk-level accounting), integer overloads, parallel_for_each (forward / random-access iterators, feeder) and parallel_invoke; "
                      "oracle: visit counters, chunks non-empty / disjoint / covering / in bounds, indivisible ranges never split, simple_partitioner chunk-size bounds.",
             "note": "the (begin,end,grain) quantifier is a pure-input clause: sampled with corner-biased values, not decided; schedule-dependent part decided by seeded search."},
     "C06": {"level": "Seeded search over schedules of parallel_reduce (Body and functional form, free-monoid value = operand sequence, so any reorder/loss/duplication shows), parallel_deterministic_reduce (non-associative floating point, compared bit-wise with an explicit split-tree recursion, across repeated runs and arena sizes), "
-                     "parallel_scan (final pass exactly once with the exact incoming prefix) and parallel_sort (sorted permutation for sorted/reverse/one-inversion/many-equal/random inputs around the 500-element cutoff); split/join discipline of reduction bodies checked through body identities.",
+                     "parallel_scan (final pass exactly once with the exact incoming prefix) and parallel_sort (sorted permutation for sorted/reverse/one-inversion/many-equal/random inputs around the 500-element cutoff); split/join discipline of reduction bodies checked through body identities; scan and reduce bodies optionally wait in a nested parallel_for.",
             "note": "inputs are sampled; schedules are sampled."},
     "C07": {"level": "Seeded search over schedules of parallel_pipeline with 2-5 filters of random modes, 1-6 tokens, 0-40 items and per-(item,stage) delays drawn from the seed; "
                      "oracle: each item through each filter once and in stage order, common order of all serial_in_order filters, no overlap in serial filters, live items <= token limit at every emission, return only after end of input and retirement of all items.",
